@@ -434,3 +434,63 @@ def c01_9(ctx):
     specs = ['_dictable:dictable.%s' % m for m in FRESH_RESULT['dictable']] + ['_dict:Dict.%s' % m for m in FRESH_RESULT['Dict']] + \
             ['_dictattr:dictattr.%s' % m for m in FRESH_RESULT['dictattr']]
     fresh_result(ctx, specs)
+
+
+@obligation('C01.10', 'MATCH (running result / cell precedence)', 'dictable.do, Dict.do, dictable.apply, Dict.apply, _dict_in_place_update',
+            'derived columns and per-column transforms equal the row-by-row model: a transform reads the table as already transformed by the earlier steps of the same call (rows of the running result), '
+            'and a cell value takes precedence over a default parameter of the same name',
+            axioms=('A1',))
+def c01_10(ctx):
+    r = ctx.repo
+    f = r.fn('_dictable:dictable.do')
+    st = [s for s in ast.walk(f.node) if isinstance(s, ast.Assign) and N(s.targets[0]) == 'res[key]']
+    ctx.count(1, f.where())
+    if not st or not isinstance(st[0].value, ast.ListComp):
+        ctx.fail(f, f.node, 'do no longer rebuilds each column with a comprehension over the rows')
+    else:
+        comp = st[0].value
+        it = N(comp.generators[0].iter)
+        if it != 'res' or len(comp.generators) != 1:
+            ctx.fail(f, st[0], 'the transformed column is computed from `%s`: rows must come from the running result `res`, so that a transform whose extra arguments name columns changed earlier in the same call sees the new values' % U(comp.generators[0].iter),
+                     witness="d.do(lambda value, a: value + a, 'a', 'b')")
+        row = U(comp.generators[0].target)
+        if N(comp.elt) != NS('f(%s[key], **{k: v for k, v in %s.items() if k in args[1:]})' % (row, row)):
+            ctx.fail(f, st[0], 'the transform is not applied as f(row[key], **the other cells it names): %s' % U(comp.elt)[:100])
+    for n in body_nodes(f.node):
+        if isinstance(n, ast.Assign) and isinstance(n.value, ast.Call) and N(n.value) in ('list(self)', 'list(res)') and n.lineno < (st[0].lineno if st else 10**9):
+            ctx.fail(f, n, 'rows are materialised once before the column loop (`%s`): later transforms read stale cells' % U(n))
+    g = r.fn('_dict:Dict.do')
+    st = [s for s in ast.walk(g.node) if isinstance(s, ast.Assign) and N(s.targets[0]) == 'res[key]']
+    ctx.count(1, g.where())
+    if not st or N(st[0].value) != NS('f(res[key], **{k: v for k, v in res.items() if k in args[1:]})'):
+        ctx.fail(g, st[0] if st else g.node, 'Dict.do does not apply f to the running value with the other running values it names')
+    a = r.fn('_dictable:dictable.apply')
+    ctx.count(1, a.where())
+    rr = returns_of(a.node)
+    ok = rr and isinstance(rr[-1].value, ast.ListComp) and N(rr[-1].value.generators[0].iter) == 'self'
+    if ok:
+        row = U(rr[-1].value.generators[0].target)
+        call = rr[-1].value.elt
+        upd = [c for c in ast.walk(call) if isinstance(c, ast.Call) and call_name(c) == '_dict_in_place_update']
+        if not upd or [U(x) for x in upd[0].args] != ['default_params', row]:
+            ctx.fail(a, rr[-1], 'the row is merged as `%s`: default parameters must be updated BY the row (cells win); the other order lets a default such as key=<new column name> override a cell of the same name' % (U(upd[0]) if upd else U(call)),
+                     witness="a table with a column named 'key': d(x = lambda key: key)")
+    else:
+        ctx.fail(a, a.node, 'apply does not evaluate the function once per row of self')
+    u = r.fn('_dictable:_dict_in_place_update')
+    ctx.count(1, u.where())
+    body = [U(s) for s in u.body]
+    if body != ['%s.update(%s)' % (u.params[0], u.params[1]), 'return %s' % u.params[0]]:
+        ctx.fail(u, u.node, '_dict_in_place_update(a, b) is not a.update(b); return a')
+    d = r.fn('_dict:Dict.apply')
+    ctx.count(1, d.where())
+    body = [U(s) for s in d.body]
+    if 'default_params.update(self)' not in body:
+        ctx.fail(d, d.node, 'Dict.apply does not let the mapping\'s own values override the default parameters')
+    rr = returns_of(d.node)
+    if not rr or N(rr[-1].value) != NS('kwargs_support(function)(**default_params) if callable(function) else self[function]'):
+        ctx.fail(d, d.node, 'Dict.apply does not call the function with the merged parameters')
+    c = r.fn('_dict:Dict.__call__')
+    ctx.count(1, c.where())
+    if U(c.node).count('res.apply(value, **{self._key: key})') < 2:
+        ctx.fail(c, c.node, 'derived values are not computed on the running result with key = <name of the derived value> as a default parameter')
